@@ -21,7 +21,10 @@ CONSTANTS Kinds,      \* definition kinds in this configuration
           MaxLen,     \* maximal number of Use/CancelledEval steps
           AllowAfterCancel \* FALSE: named exclusion for the random tier, see below
 
-Vias  == {"eval", "ctx", "host"}
+\* how a definition is used: a fresh Eval / EvalWithContext of the call, the host calling the function
+\* value it holds, or Execute / ExecuteWithContext of a PROGRAM COMPILED BEFORE the history began
+\* (nothing is compiled at the use: no global slot is added)
+Vias  == {"eval", "ctx", "host", "prog", "progctx"}
 Whats == {"busy", "blocked", "expired"}
 \* definitions whose use waits (single-clause select, two-clause select, receive) before it counts
 Blocking == {"selfn", "sel2fn", "recvfn"}
@@ -38,7 +41,7 @@ Use(k, via) ==
     /\ Len(hist) < MaxLen
     /\ count' = [count EXCEPT ![k] = @ + 1]
     /\ hist' = Append(hist, [op |-> "use", kind |-> k, via |-> via, what |-> "", ret |-> count[k] + 1])
-    /\ fresh' = (fresh \/ via # "host")
+    /\ fresh' = (fresh \/ via \in {"eval", "ctx"})
     /\ UNCHANGED ncancel
 
 CancelledEval(w) ==
